@@ -113,7 +113,7 @@ func verifApplyOp(t *Table, md *verifModel, n int, fresh int) {
 // VerifC18Table: (1) a snapshot held by a dispatcher is never changed by later admin operations
 // (2) the table view after a history of operations equals the model list.
 func VerifC18Table() {
-	n := 1 + verifChoice("n", 3)
+	n := 1 + verifChoice("n", verifParamInt("maxn", 3))
 	t, md := verifBuildTable(n)
 	// what a dispatcher may already hold
 	old := t.config.Load().(TableConfig)
@@ -122,7 +122,7 @@ func VerifC18Table() {
 	oldRW := append([]rewriter.RW{}, old.rewriters...)
 	oldAggs := append([]*aggregator.Aggregator{}, old.aggregators...)
 
-	nops := 1 + verifChoice("nops", 2)
+	nops := 1 + verifChoice("nops", verifParamInt("maxops", 2))
 	for i := 0; i < nops; i++ {
 		verifApplyOp(t, md, n, i)
 	}
